@@ -25,7 +25,7 @@ import (
 )
 
 func TestMain(m *testing.M) {
-	ev.Note("rule", "C06: schedules as data. The build overlay generated from the working tree calls a hook before every statement of atp/client.go and atp/server.go (the yield-point table is re-derived on every run); a delay plan is a list of (point, occurrence, delay): the hook sleeps 4-10 ms the n-th time the point is reached. Real client and real RunATPServer talk over unbuffered pipes and run a session history: three serial Execute calls; two concurrent ones followed by a third; a gated step that receives a signal while running, then another call; a step-fatal error followed by a success; an error without run ID broadcast to a pending run (while its step is still running, and racing its result), followed by overlapping calls; Close at the end or concurrently with the last result. Quick tier: every point that the history reaches x occurrence {1,2} x every history (exhaustive single-delay sweep); thorough tier: additionally all ordered pairs of reached points on two histories and rapid-generated plans of 1-3 delays. Oracle: every Execute returns exactly once with its own run's result, Close returns, the server returns, and no goroutine with a frame in the client remains afterwards. A call that has not returned after 2 s (200x the total delay) is only reported if the session is provably quiescent: all planned delays are over and two goroutine dumps 300 ms apart show identical parked frames; otherwise the trial is waited out (30 s) or counted as inconclusive. Non-trivial: the planned point was actually reached at the planned occurrence; distinct by (history, plan).")
+	ev.Note("rule", "C06: schedules as data. The build overlay generated from the working tree calls a hook before every statement of atp/client.go and atp/server.go (the yield-point table is re-derived on every run); a delay plan is a list of (point, occurrence, delay): the hook sleeps 4-10 ms the n-th time the point is reached. Real client and real RunATPServer talk over unbuffered pipes and run a session history: three serial Execute calls; two concurrent ones followed by a third; a gated step that receives a signal while running, then another call; a step-fatal error followed by a success; an error without run ID broadcast to a pending run (while its step is still running, and racing its result), followed by overlapping calls; two overlapping calls that carry the same run ID, followed by overlapping calls; Close at the end or concurrently with the last result. Quick tier: every point that the history reaches x occurrence {1,2} x every history (exhaustive single-delay sweep); thorough tier: additionally all ordered pairs of reached points on two histories and rapid-generated plans of 1-3 delays. Oracle: every Execute returns exactly once with its own run's result, Close returns, the server returns, and no goroutine with a frame in the client remains afterwards. A call that has not returned after 2 s (200x the total delay) is only reported if the session is provably quiescent: all planned delays are over and two goroutine dumps 300 ms apart show identical parked frames; otherwise the trial is waited out (30 s) or counted as inconclusive. Non-trivial: the planned point was actually reached at the planned occurrence; distinct by (history, plan).")
 	ev.RegisterReplay("trial", func(t *testing.T, raw json.RawMessage) {
 		var c Trial
 		if err := json.Unmarshal(raw, &c); err != nil {
@@ -291,7 +291,7 @@ func anyRunnable(gs []string) bool {
 }
 
 // Histories. Each returns a verdict; it must leave no call outstanding.
-var histories = []string{"serial3", "concurrent2plus1", "signal", "error_then_success", "close_races_last", "broadcast_error", "broadcast_error_concurrent"}
+var histories = []string{"serial3", "concurrent2plus1", "signal", "error_then_success", "close_races_last", "broadcast_error", "broadcast_error_concurrent", "same_run_id"}
 
 func runHistory(name string, s *session, h *hookState) verdictT {
 	wait := func(c *call) verdictT { return await(c.done, h, "Execute("+c.run+")") }
@@ -395,6 +395,34 @@ func runHistory(name string, s *session, h *hookState) verdictT {
 		if v := wait(s.execute("h4", "success", "", nil)); v.class != "" {
 			return v
 		}
+	case "same_run_id":
+		// two overlapping calls that carry the same run ID (a caller's mistake, but each call must still return: the
+		// one that registers second is refused, or - if the first has finished by then - runs like any other), then
+		// overlapping calls with IDs of their own
+		c1 := s.execute("g1", "success", "gate-g1", nil)
+		c2 := s.execute("g1", "success", "gate-g1", nil)
+		if !s.gates.Wait("started:g1", 30*time.Second) {
+			return verdictT{class: "inconclusive"}
+		}
+		time.Sleep(2 * time.Millisecond)
+		s.gates.Open("gate-g1")
+		if v := wait(c1); v.class != "" {
+			return v
+		}
+		if v := wait(c2); v.class != "" {
+			return v
+		}
+		c3 := s.execute("g2", "success", "gate-g2", nil)
+		if !s.gates.Wait("started:g2", 30*time.Second) {
+			return verdictT{class: "inconclusive"}
+		}
+		if v := wait(s.execute("g3", "success", "", nil)); v.class != "" {
+			return v
+		}
+		s.gates.Open("gate-g2")
+		if v := wait(c3); v.class != "" {
+			return v
+		}
 	case "close_races_last":
 		if v := wait(s.execute("e1", "success", "", nil)); v.class != "" {
 			return v
@@ -477,6 +505,7 @@ func runTrial(tr Trial) (string, string) {
 	}
 	_ = closeErr
 	// every call returned exactly once with its own result
+	g1ok := 0
 	for _, c := range s.calls {
 		if tr.History == "close_races_last" && c.run == "e2" {
 			// Close raced the last result: the call must still return (with its result or an error)
@@ -499,6 +528,17 @@ func runTrial(tr Trial) (string, string) {
 		if c.run == "f1" || c.run == "h1" {
 			continue // may have been handed the broadcast error or its own result, whichever came first: both are returns
 		}
+		if c.run == "g1" {
+			// one of the two calls is refused (or both ran, one after the other); a call that was not refused carries
+			// the run's data
+			if c.result.Error == nil {
+				if data, _ := c.result.OutputData.(map[any]any); c.result.OutputID != "success" || data == nil || data["tag"] != c.run {
+					return fmt.Sprintf("Execute(%s) returned (%q, %#v), want the run's own success output\n%s", c.run, c.result.OutputID, c.result.OutputData, head), "wrong_result"
+				}
+				g1ok++
+			}
+			continue
+		}
 		want, ok := expectedOutput(c.run)
 		if ok {
 			if c.result.Error != nil || c.result.OutputID != want {
@@ -510,6 +550,9 @@ func runTrial(tr Trial) (string, string) {
 		} else if c.result.Error == nil {
 			return fmt.Sprintf("Execute(%s) of a failing step returned success %q\n%s", c.run, c.result.OutputID, head), "wrong_result"
 		}
+	}
+	if tr.History == "same_run_id" && g1ok == 0 {
+		return fmt.Sprintf("two overlapping calls with the same run ID: neither returned the run's result\n%s", head), "wrong_result"
 	}
 	// the server returns. After Close nobody reads the server's output any more; on an operating-system pipe such
 	// output sits in the pipe buffer, on the unbuffered pipe used here it has to be drained or the server would wait
@@ -631,7 +674,7 @@ func TestSingleDelaySweep(t *testing.T) {
 	if sh, _ := ev.Shard(); sh == 0 {
 		ev.Note("points_never_reached_by_the_histories", fmt.Sprintf("%d: %s", len(names), strings.Join(names, "; ")))
 	}
-	ev.Exhaustive("single-delay sweep: every reached yield point x occurrence {1,2} x 7 histories")
+	ev.Exhaustive("single-delay sweep: every reached yield point x occurrence {1,2} x 8 histories")
 }
 
 // TestPairSweep (thorough): all ordered pairs of reached points on two histories.
